@@ -356,6 +356,8 @@ pub struct RecvStream {
     read_chunk_fut: ReadChunkFuture,
     is_0rtt: bool,
     pending_stop: Option<VarInt>,
+    /// Code of the peer's reset, once it has been reported
+    reset: Option<VarInt>,
 }
 
 type ReadChunkFuture = ReusableBoxFuture<
@@ -376,6 +378,7 @@ impl RecvStream {
             read_chunk_fut: ReusableBoxFuture::new(async { unreachable!() }),
             is_0rtt,
             pending_stop: None,
+            reset: None,
         }
     }
 }
@@ -388,6 +391,13 @@ impl quic::RecvStream for RecvStream {
         &mut self,
         cx: &mut task::Context<'_>,
     ) -> Poll<Result<Option<Self::Buf>, StreamErrorIncoming>> {
+        // quinn reports a reset once and answers `None` to later reads: keep
+        // reporting it, a reset stream never ends cleanly
+        if let Some(error_code) = self.reset {
+            return Poll::Ready(Err(StreamErrorIncoming::StreamTerminated {
+                error_code: error_code.into_inner(),
+            }));
+        }
         if let Some(mut stream) = self.stream.take() {
             self.read_chunk_fut.set(async move {
                 let chunk = stream.read_chunk(usize::MAX, true).await;
@@ -400,6 +410,9 @@ impl quic::RecvStream for RecvStream {
             let _ = stream.stop(error_code);
         }
         self.stream = Some(stream);
+        if let Err(ReadError::Reset(error_code)) = &chunk {
+            self.reset = Some(*error_code);
+        }
         Poll::Ready(Ok(chunk
             .map_err(convert_read_error_to_stream_error)?
             .map(|c| c.bytes)))
